@@ -23,7 +23,7 @@ def run_one(fn, timeout):
     t0 = time.time()
     cmd = [sys.executable, "-m", "crosshair", "check", "--report_all", "--per_condition_timeout", str(timeout),
            f"{HARNESS}:{_line_of(fn)}"]
-    env = dict(os.environ, PYTHONPATH="/repo/src:/verif", PYTHONHASHSEED="0", C14_NDIR=str(BOUNDS[0]),
+    env = dict(os.environ, PYTHONPATH=os.environ.get("VF_SRC", "/repo/src") + ":/verif", PYTHONHASHSEED="0", C14_NDIR=str(BOUNDS[0]),
                C14_NNAME=str(BOUNDS[1]))
     try:
         p = subprocess.run(cmd, capture_output=True, text=True, timeout=timeout * 3 + 120, env=env)
